@@ -539,26 +539,29 @@ def cli_text_arguments(res, rng, scratch_dir, n):
         code = rng.choice(["%dS" % L, "%dW%dS" % (L - 1, 1) if L > 1 else "1S", "%dN" % L, "N" * L, "%dR" % L])
         d1 = os.path.join(scratch_dir, "cli%d" % k); d2 = os.path.join(scratch_dir, "clih%d" % k)
         os.makedirs(d1); os.makedirs(d2)
-        body = 'sequence a = "<code>" : <n>\nsequence b = "<n>N"\nstrand A = a b\nstructure S = A : <2*n>.\n'
-        tmpl = "declare component T(code, n): -> \n" + body
-        hand = "declare component T: -> \n" + body.replace("<code>", code).replace("<2*n>", str(2 * L)).replace("<n>", str(L))
+        # ... and a NAME given as text, also one that happens to begin like a Python module name (`sys-1` is not an expression that
+        # evaluates: it arrives as the text)
+        tag = ["sys-1", "A1", "re-2", "gate", "string-x", "os-3", "x_y"][k % 7]
+        body = 'sequence a = "<code>" : <n>\nsequence b = "<n>N"\nstrand <tag> = a b\nstructure S = <tag> : <2*n>.\n'
+        tmpl = "declare component T(code, n, tag): -> \n" + body
+        hand = "declare component T: -> \n" + body.replace("<code>", code).replace("<tag>", tag).replace("<2*n>", str(2 * L)).replace("<n>", str(L))
         with open(os.path.join(d1, "T.comp"), "w") as f:
             f.write(tmpl)
         with open(os.path.join(d2, "T.comp"), "w") as f:
             f.write(hand)
-        r_api = compile_file(d1, "T", [code, L])
+        r_api = compile_file(d1, "T", [code, L, tag])
         r_hand = compile_file(d2, "T", [])
-        r_cli = compile_cli(d1, "T", [code, str(L)])
+        r_cli = compile_cli(d1, "T", [code, str(L), tag])
         res.evaluations += 1
         res.count("e2e:command-line-text-argument")
-        inp = {"template.comp": tmpl, "argv": [code, str(L)], "hand_expanded.comp": hand}
+        inp = {"template.comp": tmpl, "argv": [code, str(L), tag], "hand_expanded.comp": hand}
         if "ok" not in r_hand or r_api != r_hand:
             res.violations.append({"what": "template compiled with the text argument %r differs from its hand-expanded form" % code, "input": inp,
                                    "observed": r_api, "expected": r_hand, "sig": "C13:e2e-differs", "cmd": "compiler('T', [%r, %d], ...)" % (code, L)})
         elif r_cli != r_hand:
             res.violations.append({"what": "template compiled from the command line with the text argument %r differs from its hand-expanded form" % code,
                                    "input": inp, "observed": r_cli, "expected": r_hand.get("ok"), "sig": "C13:e2e-cli-args",
-                                   "cmd": "cd <dir with T.comp>; pepper-compiler T %s %d" % (code, L)})
+                                   "cmd": "cd <dir with T.comp>; pepper-compiler T %s %d %s" % (code, L, tag)})
 
 
 def end_to_end(res, rng, scratch_dir, idx, kind, reqs, impls):
